@@ -272,6 +272,11 @@ def scenario_fn(case):
         from props import C05
 
         return lambda: C05.raw_case(NullCtx(), case["case"])
+    if k == "epochs":
+        # resumed connections with 0-RTT accepted by the server, and frames in Initial / Handshake packets
+        from props import C05
+
+        return lambda: C05.epochs_case(NullCtx(), case["case"])
     if k == "tls":
         from vlib import tlspeer
 
@@ -510,6 +515,10 @@ def strategy(kind):
         special = st.lists(st.one_of(st.tuples(st.just("vn"), st.sampled_from(["current", "current+other", "other", "none", "unknown"]), st.just(True)), st.tuples(st.just("retry"), st.sampled_from([0, 16, 100]), st.booleans()), st.tuples(st.just("genuine"), st.integers(0, 3))), min_size=1, max_size=4)
         directed = special.map(lambda inputs: {"kind": "raw", "state": "client-connecting", "inputs": inputs})
         return st.one_of(C05.raw_strategy(), C05.raw_strategy(), directed).map(lambda c: {"kind": "raw", "case": c})
+    if kind == "epochs":
+        from props import C05
+
+        return C05.epoch_strategy().map(lambda c: {"kind": "epochs", "case": c})
     if kind == "tls":
         from vlib import tlspeer
 
@@ -540,7 +549,7 @@ def replay(ctx, case):
 def plan(tier, seed):
     q = tier == "quick"
     t = []
-    for kind, nq, nt, shards in (("sim", 40, 4000, 5), ("frames", 60, 5000, 3), ("raw", 120, 8000, 2), ("tls", 300, 6000, 2), ("h3", 200, 15000, 2)):
+    for kind, nq, nt, shards in (("sim", 40, 4000, 5), ("frames", 60, 5000, 3), ("raw", 120, 8000, 2), ("tls", 300, 6000, 2), ("epochs", 60, 4000, 2), ("h3", 200, 15000, 2)):
         for s in range(shards):
             t.append(("%s-%d" % (kind, s), {"kind": kind, "examples": nq if q else nt, "shard": s}))
     return t
